@@ -59,6 +59,14 @@ def finish(c, g):
     c.op("hdrop", w)
     c.op("hdrop", r)
     c.op("snap", t)
+    # a walk whose entries vanish behind the iterator's back (after 0, 1, 2 items): the items whose lookup then fails are
+    # error items, and the walk goes on - sync iterator and async stream alike
+    c.op("createdirall", vfx.ps(t, "wk/a/b"))
+    for n in ("wk/a/f1", "wk/a/f2", "wk/z1", "wk/z2", "wk/a/b/deep"):
+        hist.write_file(c, t, n, b"w")
+    for k, victim in ((0, "wk/a/f1"), (1, "wk/z1"), (2, "wk/a/b"), (1, "wk/a")):
+        c.op("walkrm", vfx.ps(t, "wk"), k, vfx.ps(t, victim))
+    c.op("walkdir", "%d:" % t)
     if g.kind == "phys":
         # hostile directory content made behind the crate's back
         c.op("xrawname", 0, "66ff6f")          # a name that is not UTF-8
@@ -84,7 +92,7 @@ P = histprop.HistProp(
           "('', '/', '.', '..', 'a/', '//', '...', multi-byte, 300 characters), by reads/seeks/writes on handles whose file "
           "and directory were removed (offsets 0, +-1, len, len+1, i64::MIN/MAX, 2^40, zero-length buffers), and on "
           "PhysicalFS by listings and calls over a non-UTF-8 file name, a dangling symlink and a symlink loop created behind "
-          "the crate's back; every call runs under catch_unwind in a debug and in a release build; a case counts as "
+          "the crate's back, and by walks whose entries are removed while the walk is under way; every call runs under catch_unwind in a debug and in a release build; a case counts as "
           "non-trivial when it has at least 3 successful and 1 failing call"),
     assumptions=["copy_dir/move_dir into the source's own subtree is excluded (documented non-termination)",
                  "writes at positions beyond 100 kB are excluded (allocation failure aborts, it does not panic)",
